@@ -374,9 +374,9 @@ Definition match_tokens (C : config) (docs : list cdoc) (tgt_ids : list N) (tgt_
     | Err e => Err e
     | Ok cs =>
       let sorted := sort (less C.(cf_total_less)) (pm ++ cs) in
-      match rev tgt_lines with
-      | [] => Err 5                                (* id.Tokens[len(id.Tokens)-1] *)
-      | lastl :: _ => Ok {| r_matches := filter_candidates sorted; r_total := lastl |}
-      end
+      (* TotalInputLines: line of the last token, 0 when there is none (guarded
+         since the "fix:" for threshold 0; before it: index -1 panic) *)
+      Ok {| r_matches := filter_candidates sorted;
+            r_total := match rev tgt_lines with [] => 0%Z | lastl :: _ => lastl end |}
     end
   end.
